@@ -77,6 +77,11 @@ pub fn ref_velocity(v: &Vel) -> VelExp {
     } else {
         vec![isqrt(sq) as u32]
     };
+    if vew == 0 && vns == 0 {
+        // zero velocity vector: the direction is undefined (atan2(0, +-0) is 0 or 180 depending on
+        // the sign of zero) - any track in [0,360) is accepted
+        return VelExp { gs: Some(gs), track: Some((0..360).collect()), vrate };
+    }
     let deg = (vew as f64).atan2(vns as f64).to_degrees();
     let fl = deg.floor();
     let norm = |x: f64| (((x as i64) % 360 + 360) % 360) as u32;
